@@ -14,6 +14,11 @@ RULE_ADDED = {
     "C11a": "C11-R5 (staking view provenance)",
     "C11b": "C11-R3 (log amount = moved amount)", "C13b": "C13-R3 (every result stores the slots)", "C17b": "C17-R1 (membership is an equality with the authority)",
     "C20b": "C20-R8 (uninstall at most once)",
+    "C01c": "C01-R3 (sync/atomic in consensus code)", "C02c": "C02-R11 (= C04-R2 Suicide)", "C04c": "C04-R2 (carry-over burnt first)", "C05c": "C05-R1 (deducts the effective fee)",
+    "C06c": "C06-R7 (authz screen, shared)", "C08b": "C08-R7 (= C03-R2)", "C08c": "C02-R1 nesting / C08-R6", "C11c": "C11-R6 (round once)", "C15c": "C15-R5 / C18-R2 (iteration helpers complete)",
+    "C16b": "C16-R4 (KEY-INJECTIVE)", "C16c": "C16-R3 (next() after the loop)", "C18b": "C18-R2 (import completeness)", "C18c": "C18-R2 (verbatim import)", "C19b": "C19-R1 (digest only through the hash)",
+    "C19c": "C19-R2 (single signer info)", "C20c": "C20-R9 (init before go)", "C02d": "C02-R2 (access-list loops)", "C04d": "C04-R5 (= C06-R7)", "C05d": "C05-R8 / C13-R8 (index after counting)",
+    "C07d": "C07-R3 (exact zero tests)", "C11d": "C11-R7 (views write nothing)", "C16d": "C16-R1 (HasProof exact)", "C18d": "C18-R2 (dynamic deploy flags)", "C19d": "C19-R5 (no raw private scalar)",
 }
 
 
